@@ -103,6 +103,7 @@ func (s *c07State) readReferrers(rn, sd, filter string, tag string) {
 			got[x.Digest] = x
 		}
 		if filter != "" && total > 0 {
+			// a subject without any referrer gets the empty index early without the header: misleads no client, not asserted (DESIGN.md §3 C07)
 			if h := r.hdr.Get("OCI-Filters-Applied"); h != "artifactType" {
 				s.fail("filter-header-missing", "%s: OCI-Filters-Applied=%q on a filtered response (subject has %d referrers)", what, h, total)
 			}
